@@ -238,16 +238,19 @@ func hasCaseInsensitivePath(fs filesys.Filesys, target string) (bool, error) {
 }
 
 // hasCaseInsensitiveMatch tests to see if any of |candidates| are a case-insensitive match for |target| and if so,
-// returns true along with the exact candidate string that matched. If there was not a match, false and the empty
-// string are returned.
+// returns true along with the exact candidate string that matched. A candidate that matches |target| exactly wins
+// over candidates that only differ in case (on a case-sensitive filesystem, dropped databases whose names differ
+// only in case can be held side by side). If there was not a match, false and the empty string are returned.
 func hasCaseInsensitiveMatch(candidates []string, target string) (bool, string) {
 	found := false
 	exactCaseName := ""
 	for _, s := range candidates {
-		if strings.EqualFold(target, s) {
+		if s == target {
+			return true, s
+		}
+		if !found && strings.EqualFold(target, s) {
 			exactCaseName = s
 			found = true
-			break
 		}
 	}
 
